@@ -2,33 +2,35 @@
 """Writes MANIFEST.json from the table below (kept in one place so that it is always valid)."""
 import json, os
 V = os.path.dirname(os.path.dirname(os.path.abspath(__file__)))
+LEGA = (" Leg A: the transcription spec/AlgArith.tla of the implementation is checked exhaustively in small formats (spec/MC_Small.tla, spec/MC_Machine.tla) "
+        "against the same contract operators, and is bound to the code by a bit-for-bit drift check at binary64 on every recorded arithmetic event (zero drift on the current tree).")
 TB = ("Trusted: TLC's evaluator + CommunityModules (Json, IOUtils, FoldLeft); the harness code that slices f64/integer bits "
       "into limbs (round-trip self-tested); rustc/cargo. Not trusted because re-derived in the spec: host f64 arithmetic, libm, "
       "no_overlap/is_valid. Sampled at binary64: the contract is decided exactly on every recorded call, but the calls are a "
       "directed/random sample of the input space.")
 CHECKS = {
  "C02": ("model_checking", "TLA+ contracts (exact dyadic arithmetic) + TLC trace validation of recorded executions; exhaustive small-format TLC model of the 2Sum/2Prod transcriptions",
-         "Exactness of new_add/new_sub/new_mul, the new_div tolerance and from_f64 are decided in exact limb arithmetic on every recorded call of the real crate (directed pairs: equal/opposite, subnormal, 1000+ binades apart, products at the 2^-960 / 2^1023 edges); the error-free transformations are additionally enumerated over all operand pairs of small formats."),
+         "Exactness of new_add/new_sub/new_mul, the new_div tolerance and from_f64 are decided in exact limb arithmetic on every recorded call of the real crate (directed pairs: equal/opposite, subnormal, 1000+ binades apart, products at the 2^-960 / 2^1023 edges); the error-free transformations are additionally enumerated over all operand pairs of small formats." + LEGA),
  "C03": ("exploration", "TLA+ contracts + TLC trace validation of recorded executions (exact dyadic oracle)",
-         "The 3u^2+13u^3 / 2u^2 bounds are integer inequalities over exact values, evaluated by TLC on every recorded +,-,+=,-= call (all pairings and spellings) of directed operands: cancellation at every depth, ties, powers of two, far-apart exponents, results fed back. A worst-case bound over 2^256 operand pairs cannot be enumerated at binary64: exploration."),
+         "The 3u^2+13u^3 / 2u^2 bounds are integer inequalities over exact values, evaluated by TLC on every recorded +,-,+=,-= call (all pairings and spellings) of directed operands: cancellation at every depth, ties, powers of two, far-apart exponents, results fed back. A worst-case bound over 2^256 operand pairs cannot be enumerated at binary64: exploration." + LEGA),
  "C04": ("exploration", "TLA+ contracts + TLC trace validation of recorded executions (exact dyadic oracle)",
-         "5u^2 / 2u^2 bounds, zero/unit/power-of-two exactness clauses decided exactly on every recorded multiplication."),
+         "5u^2 / 2u^2 bounds, zero/unit/power-of-two exactness clauses decided exactly on every recorded multiplication." + LEGA),
  "C05": ("exploration", "TLA+ contracts + TLC trace validation of recorded executions (exact dyadic oracle)",
-         "3u^2 / 16u^2 bounds by cross-multiplication, a/a = 1, unit and power-of-two divisors, recip == 1.0/x via the determinism memo."),
+         "3u^2 / 16u^2 bounds by cross-multiplication, a/a = 1, unit and power-of-two divisors, recip == 1.0/x via the determinism memo." + LEGA),
  "C19": ("exploration", "TLA+ contracts + TLC trace validation of recorded executions (exact dyadic oracle)",
-         "truncated / floored quotient semantics decided with exact big-integer division in TLA+ on every recorded %, %=, div_euclid, rem_euclid call (integer, near-integer, tiny and huge quotients, all sign combinations)."),
+         "truncated / floored quotient semantics decided with exact big-integer division in TLA+ on every recorded %, %=, div_euclid, rem_euclid call (integer, near-integer, tiny and huge quotients, all sign combinations)." + LEGA),
  "C01": ("model_checking", "TLA+ state machine with the Normalised clause on every TwoFloat-producing action + TLC trace validation of random programs recorded from the real crate; exhaustive small-format TLC models of the transcribed algorithms",
-         "Normalised (valid or non-finite high word) is evaluated by the spec's own RN after every call of random 50-200-call programs with results fed back, of the directed arithmetic/conversion/rounding corpora, and of 128-bit integer conversions aimed at the tie-beside-odd pattern."),
+         "Normalised (valid or non-finite high word) is evaluated by the spec's own RN after every call of random 50-200-call programs with results fed back, of the directed arithmetic/conversion/rounding corpora, and of 128-bit integer conversions aimed at the tie-beside-odd pattern." + LEGA),
  "C06": ("model_checking", "TLA+ contracts (exact comparison of values) + TLC trace validation; relational checks through the determinism memo",
-         "Every comparison operator in every pairing and both argument orders is checked against the exact three-way comparison of the values on related operand pairs (same high word, one low-word ulp apart, sign of zero), f64 comparands incl. infinities/NaN, and NaN-bearing values reachable through the API."),
+         "Every comparison operator in every pairing and both argument orders is checked against the exact three-way comparison of the values on related operand pairs (same high word, one low-word ulp apart, sign of zero), f64 comparands incl. infinities/NaN, and NaN-bearing values reachable through the API." + LEGA),
  "C07": ("model_checking", "TLA+ definition RN(a+b)=a evaluated by the spec's own RN + TLC trace validation over the complete structural grid",
-         "no_overlap / is_valid / TryFrom are compared with Definition 1.4 computed by the specification on the complete structural grid of the bit-level algorithm (every exponent field x significand classes x thresholds x signs) and on random bit patterns."),
+         "no_overlap / is_valid / TryFrom are compared with Definition 1.4 computed by the specification on the complete structural grid of the bit-level algorithm (every exponent field x significand classes x thresholds x signs) and on random bit patterns." + LEGA),
  "C08": ("model_checking", "TLA+ contracts (exact integer arithmetic on limbs) + TLC trace validation; exhaustive small-format model of the case split",
-         "floor/ceil/trunc/round/fract results must equal the exact functions of the exact value, on directed values covering every branch of the case split (fraction in hi / in lo / in both / nowhere, halves, signs)."),
+         "floor/ceil/trunc/round/fract results must equal the exact functions of the exact value, on directed values covering every branch of the case split (fraction in hi / in lo / in both / nowhere, halves, signs)." + LEGA),
  "C09": ("model_checking", "TLA+ contracts (big-integer ranges, exact truncation) + TLC trace validation; exhaustive for the 8/16-bit types",
-         "From<int> is validated for every value of i8/u8/i16/u16 and on boundary-dense / tie-targeted 32-128-bit values; TryFrom at +-1 low-word ulp of every type's bounds; float conversions against the spec's RN at binary32."),
+         "From<int> is validated for every value of i8/u8/i16/u16 and on boundary-dense / tie-targeted 32-128-bit values; TryFrom at +-1 low-word ulp of every type's bounds; float conversions against the spec's RN at binary32." + LEGA),
  "C10": ("model_checking", "determinism memo of the TLA+ machine (one key per operation and operand words) + TLC trace validation of every spelling",
-         "All ~150 spellings of an operand tuple must refine onto one memo entry with identical words; algebraic identities are relations between memo entries."),
+         "All ~150 spellings of an operand tuple must refine onto one memo entry with identical words; algebraic identities are relations between memo entries." + LEGA),
  "C11": ("exploration", "determinism memo across build configurations + exact FMA contract; TLC trace validation of interleaved std / no_std traces",
          "The same seeded corpus is executed by a default-features and a --no-default-features build; interleaved traces must agree word for word; the cfg-selected fma (hook) is compared with RN(x*y+z) computed by the specification."),
  "C12": ("model_checking", "rigorous ball enclosures of the mathematical constants computed in TLA+ (Machin, atanh series, Taylor, verified division / integer square root) + TLC trace validation; the finite set of constants is checked completely",
@@ -36,11 +38,11 @@ CHECKS = {
  "C13": ("exploration", "TLA+ contracts: exact dyadic inequalities on r^2 / r^3, ball enclosure of x^|n| by binary powering; TLC trace validation",
          "sqrt/cbrt/hypot tolerances are exact integer inequalities; powi is checked against an enclosure of x^|n| for exponents log-uniform in |n| with i32::MIN/MAX, 0, +-1 always included, the n = 0 / 1 clauses, totality (no panic) and powi(x,-n) == recip(powi(x,n)) through the memo."),
  "C14": ("exploration", "TLA+ ball-arithmetic enclosures of exp / expm1 (Taylor with explicit remainder, enclosure of ln 2) + TLC trace validation, three-valued verdicts",
-         "Accuracy floors, exact points, saturation and the sign/parity rules of exp, exp2, exp_m1, powf are decided on stratified arguments (every lookup-table entry from both reduction sides, every range switch, tie low words); a panic is a violation on the whole valid domain."),
+         "Accuracy floors, exact points, saturation and the sign/parity rules of exp, exp2, exp_m1, powf are decided on stratified arguments (every lookup-table entry from both reduction sides, every range switch, tie low words); a panic is a violation on the whole valid domain." + LEGA),
  "C15": ("exploration", "TLA+ enclosure of ln by rigorous Newton steps through the exp enclosure + TLC trace validation",
          "ln, log2, log10, ln_1p floors, exact points, domain errors and panic-freedom on 1960 binades, densely around 1 and at -1 < x; log/log10 as quotients through the memo."),
  "C16": ("exploration", "TLA+ enclosures of sin / cos (reduction with an enclosure of pi/2) + TLC trace validation",
-         "Absolute/relative floors of sin, cos, the tan bound cross-multiplied by cos^2, sin_cos == (sin, cos) through the memo, exact points, invalid arguments."),
+         "Absolute/relative floors of sin, cos, the tan bound cross-multiplied by cos^2, sin_cos == (sin, cos) through the memo, exact points, invalid arguments." + LEGA),
  "C17": ("exploration", "monotone inversion through the sin / cos enclosures at r +- tolerance (exact end points) + TLC trace validation",
          "asin, acos, atan, atan2 floors, branch conventions on the axes (bit-identical to the correctly rounded pi, pi/2), domain errors."),
  "C18": ("exploration", "enclosures of exp; monotone inversion for the inverse functions + TLC trace validation",
@@ -79,7 +81,9 @@ def main():
         },
         "engines": [
             {"name": "tla-trace", "path": "spec/Trace.tla", "serves_properties": sorted(CHECKS),
-             "kind_free_text": "TLA+ state machine of the library (spec/Machine.tla + Contracts*.tla over BigNat/Dyadic/IEEE/DD) checked by TLC: trace validation of executions recorded from the real crate by harness/ (impl -> spec), exhaustive small-format models of the transcribed algorithms (spec/MC_*.tla)"},
+             "kind_free_text": "TLA+ state machine of the library (spec/Machine.tla + Contracts*.tla over BigNat/Dyadic/IEEE/DD/Ball/Elementary) checked by TLC: trace validation of executions recorded from the real crate by harness/ (impl -> spec), with a drift check against the transcription spec/AlgArith.tla"},
+            {"name": "tla-mc", "path": "spec/MC_Small.tla", "serves_properties": ["C01", "C02", "C03", "C04", "C05", "C06", "C07", "C08", "C09", "C10", "C14", "C16", "C19"],
+             "kind_free_text": "exhaustive TLC models of the transcribed algorithms in small floating-point formats (P = 3, 4, 5): spec/MC_Small.tla (every operand pair / every value, sliced over 16 TLC processes), spec/MC_Machine.tla (all states reachable by arbitrary chains of operations), spec/AlgFlow.tla (exp reduction, quadrant selection)"},
         ],
         "checks": checks,
         "not_applicable": na,
